@@ -1,2 +1,92 @@
-FAMILY = dict(name="valve", nargs=4, gen="valve", retries=3, port=0, gather=2,
-              decode_property="C02", entry="valve")
+"""Valve A2S family: how the generic property runners drive it."""
+
+FAMILY = dict(
+    name="valve", nargs=4, gen="valve", retries=3, port=0, gather=2, decode_property="C02", entry="valve",
+    describe=("all 32 EDF flag subsets, both info layouts, The Ship, ROR2, 0-3 challenge rounds, single / Source split / "
+              "GoldSrc split at random cut points"),
+)
+
+KIND = {0: "54", 1: "55", 2: "56"}
+
+
+def fragment_groups(case):
+    """C08: [(conn, start, count)] of consecutive split datagrams of one reply (same split id)"""
+    groups = []
+    for ci, ds in enumerate(case.script):
+        if ds == "X":
+            continue
+        i = 0
+        while i < len(ds):
+            d = ds[i]
+            if d is not None and d[:4] == b"\xfe\xff\xff\xff" and len(d) >= 8:
+                j = i
+                while j < len(ds) and ds[j] is not None and ds[j][:8] == d[:8]:
+                    j += 1
+                if j - i >= 2:
+                    groups.append((ci, i, j - i))
+                i = j
+            else:
+                i += 1
+    return groups
+
+
+def c08_prepare(case):
+    """C08: a failed section must surface as the query's error (Try would turn it into an absent section, which is
+    C11's subject): sections that are gathered are gathered with Enforce"""
+    gi = FAMILY["gather"]
+    case.args[gi] = case.args[gi][:2].replace("t", "e") + case.args[gi][2]
+    return case
+
+
+# ---- C10: retried units
+
+def c10_eligible(valid):
+    """bases: fault-free run succeeds with every unit present"""
+    return valid.want.startswith("OK") and " P+" in valid.want and " R+" in valid.want and not valid.notwf
+
+
+def c10_units(valid):
+    return [0, 1, 2]  # info, players, rules
+
+
+def c10_build(valid, unit, v, r, new_id):
+    """script with the outcome vector v (S silent, F send fault, M malformed, V valid) injected at `unit`"""
+    c = valid.case()
+    seg = valid.seg()
+    ch = [int(x) for x in valid.tags["CH"].split(",")]
+    ds = c.script[0] if c.script else []
+    starts = [0, seg[0], seg[0] + seg[1]]
+    groups = [ds[starts[k]:starts[k] + seg[k]] for k in range(3)]
+    newds, faults = [], []
+    for k in range(3):
+        if k != unit:
+            newds += groups[k]
+            faults += [False] * (1 + ch[k])
+            continue
+        for e in v:
+            if e == "S":
+                newds.append(None)
+                faults.append(False)
+            elif e == "F":
+                faults.append(True)
+            elif e == "M":
+                newds.append(b"\xff\xff")
+                faults.append(False)
+            else:
+                newds += groups[k]
+                faults += [False] * (1 + ch[k])
+    c.script = [newds]
+    c.args[FAMILY["retries"]] = str(r)
+    g = list(c.args[FAMILY["gather"]])
+    g[0] = g[1] = "e"
+    c.args[FAMILY["gather"]] = "".join(g)
+    c.opts = [o for o in c.opts if not o.startswith("f=")] + ["f=" + "".join("1" if f else "0" for f in faults)]
+    return c.line(new_id)
+
+
+def c10_attempts(valid, unit, sends, clean):
+    """attempts of `unit` seen on the wire; sends = [(conn, port, hex, failed)]; a valid attempt also answers each
+    challenge once"""
+    ch = [int(x) for x in valid.tags["CH"].split(",")]
+    kind_sends = sum(1 for (_, _, data, _) in sends if data[8:10] == KIND[unit])
+    return kind_sends - (ch[unit] if clean else 0)
